@@ -19,10 +19,12 @@ package raft
 // answers with createResp(success).
 
 import (
+	"bytes"
 	"context"
 	"errors"
 	"fmt"
 	"net"
+	"os"
 	"sync"
 	"sync/atomic"
 	"time"
@@ -41,6 +43,85 @@ type VerifNet struct {
 	processed []VerifProcessed
 	nextPID   int
 	dialers   []*VerifDialer
+
+	// Buffered gives the dialing end of every new connection a receive buffer, as a socket has:
+	// what the peer writes arrives whether or not the dialer is reading (net.Pipe is synchronous).
+	Buffered bool
+}
+
+// verifBuffered: the receive buffer of the dialing end.
+type verifBuffered struct {
+	net.Conn
+	mu   sync.Mutex
+	buf  bytes.Buffer
+	sig  chan struct{}
+	rerr error
+	rd   time.Time
+}
+
+func newVerifBuffered(c net.Conn) *verifBuffered {
+	b := &verifBuffered{Conn: c, sig: make(chan struct{}, 1)}
+	go func() {
+		tmp := make([]byte, 4096)
+		for {
+			n, err := b.Conn.Read(tmp)
+			b.mu.Lock()
+			b.buf.Write(tmp[:n])
+			if err != nil {
+				b.rerr = err
+			}
+			b.mu.Unlock()
+			select {
+			case b.sig <- struct{}{}:
+			default:
+			}
+			if err != nil {
+				return
+			}
+		}
+	}()
+	return b
+}
+
+func (b *verifBuffered) SetReadDeadline(t time.Time) error {
+	b.mu.Lock()
+	b.rd = t
+	b.mu.Unlock()
+	return nil
+}
+
+func (b *verifBuffered) SetDeadline(t time.Time) error {
+	_ = b.SetReadDeadline(t)
+	return b.Conn.SetWriteDeadline(t)
+}
+
+func (b *verifBuffered) Read(p []byte) (int, error) {
+	for {
+		b.mu.Lock()
+		if b.buf.Len() > 0 {
+			n, _ := b.buf.Read(p)
+			b.mu.Unlock()
+			return n, nil
+		}
+		err, rd := b.rerr, b.rd
+		b.mu.Unlock()
+		if err != nil {
+			return 0, err
+		}
+		var tc <-chan time.Time
+		if !rd.IsZero() {
+			d := time.Until(rd)
+			if d <= 0 {
+				return 0, os.ErrDeadlineExceeded
+			}
+			tc = time.After(d)
+		}
+		select {
+		case <-b.sig:
+		case <-tc:
+			return 0, os.ErrDeadlineExceeded
+		}
+	}
 }
 
 func NewVerifNet() *VerifNet {
@@ -97,6 +178,9 @@ func (n *VerifNet) dial(addr string, meta VerifPipe) (net.Conn, *VerifPipe, erro
 	p := &meta
 	p.ID = len(n.pipes)
 	p.PID = l.PID
+	if n.Buffered {
+		c = newVerifBuffered(c)
+	}
 	p.client = &verifEnd{Conn: c, pipe: p}
 	p.server = &verifEnd{Conn: s, pipe: p}
 	select {
@@ -236,6 +320,38 @@ type VerifListener struct {
 
 	mu           sync.Mutex
 	Disconnected []uint64
+	slow         time.Duration // hold the next reply for this long (a peer that is busy)
+}
+
+// SlowNext makes the listener hold its next reply for d before it is written.
+func (l *VerifListener) SlowNext(d time.Duration) {
+	l.mu.Lock()
+	l.slow = d
+	l.mu.Unlock()
+}
+
+// SetTerm sets the term the listener's replies carry (used to tell replies apart).
+func (l *VerifListener) SetTerm(t uint64) {
+	l.mu.Lock()
+	l.r.storage.term = t
+	l.mu.Unlock()
+}
+
+// DoRPCTerm is DoRPC with its own deadline; it also returns the term of the reply that was read.
+func (d *VerifDialer) DoRPCTerm(dest uint64, kind int, timeout time.Duration) (string, uint64) {
+	q, resp, err := VerifRequest(kind, 1, d.NID)
+	if err != nil {
+		return "badKind", 0
+	}
+	d.curDest = dest
+	pool := d.r.getConnPool(dest)
+	if err := pool.doRPC(q, resp, time.Now().Add(timeout)); err != nil {
+		if ne, ok := err.(net.Error); ok && ne.Timeout() {
+			return "timeout", 0
+		}
+		return verifConnErr(err), 0
+	}
+	return "ok", resp.getTerm()
 }
 
 // StartListener starts a node with identity (cid, nid) serving at addr. Whatever
@@ -320,7 +436,14 @@ func (l *VerifListener) reply(rpc *rpc) {
 	l.net.mu.Lock()
 	l.net.processed = append(l.net.processed, rec)
 	l.net.mu.Unlock()
+	l.mu.Lock()
+	hold := l.slow
+	l.slow = 0
 	rpc.resp = rpc.req.rpcType().createResp(r, success, nil)
+	l.mu.Unlock()
+	if hold > 0 {
+		time.Sleep(hold)
+	}
 	close(rpc.done)
 }
 
